@@ -69,7 +69,22 @@ def post_validate_simplify(work, st):
     bad = [(owners[j], o) for j, o in enumerate(outs) if o.strip() != owners[j][1]]
     st["validator_requests"] = len(outs)
     st["validator_rejects"] = len(bad)
-    return [("validator", k, f"verified validator rejects the implementation's {what}: {o.strip()}") for (k, _, what), o in bad]
+    # The simplification validator is sound, not complete (it matches child operations greedily).  A child tape it cannot
+    # follow is still vouched for when it is, operation for operation, the tape the MODEL's simplify produced for the same
+    # parent and trace: that function is proved correct (SimplifyProof.fsimplify_correct).  Only the others are reported.
+    mpath = os.path.join(work, "model.txt")
+    mlines = open(mpath).read().splitlines() if os.path.exists(mpath) else []
+    out, vouched = [], 0
+    for (k, _, what), o in bad:
+        child = what.split("->")[-1] if "->" in what else None
+        if child and k < len(mlines):
+            ms, is_ = split_sections(mlines[k]), split_sections(lines[k])
+            if child in ms and ms.get(child) == is_.get(child):
+                vouched += 1
+                continue
+        out.append(("validator", k, f"verified validator rejects the implementation's {what}: {o.strip()}"))
+    st["validator_rejects_vouched_by_proved_model_simplify"] = vouched
+    return out
 
 
 def post_validate_bytecode(work, st):
